@@ -26,7 +26,10 @@ RULE = ("product explorer: a case is one call of a public operation described by
         "well-formed call(s) (variant 'control', must not raise) and one case per way of violating one stated "
         "precondition (shape mismatches incl. permuted / broadcast-compatible / same-count shapes, wrong lengths "
         "incl. 1 and multiples, every out-of-range / negative / repeated mode position, every non-permutation, every "
-        "count-changing reshape, inconsistent constructor components, inconsistent algorithm options).  Invariant: a "
+        "count-changing reshape, inconsistent constructor components, inconsistent algorithm options - the latter as "
+        "a lattice of jointly given options, e.g. per-mode ranks x processing order x truncation scheme; in-place "
+        "updates over every non-decreasing mode list incl. repeated entries x every way of being one block short).  "
+        "Invariant: a "
         "violator raises and a bit-level snapshot of receiver and arguments is unchanged afterwards.  Non-trivial: "
         "every violator case (the verdict depends on the real call raising).")
 ASSUMPTIONS = [
@@ -52,8 +55,11 @@ BOUNDS = {
              "extent, column and count mismatches, Kruskal/Tucker column counts R+1 / 1 per factor, every (rdims | cdims) "
              "split x every divisor matrix shape for tenmat/sptenmat, Khatri-Rao 2-3 matrices; algorithms (1 iteration) "
              "on the 2-3 way shapes with >= 4 cells: every dimorder permutation / 5 non-permutations, guesses with each "
-             "mode +1 / ->1, rank +-1, order +-1, reversed; import_data files for shapes cells<=8; in-place: every "
-             "ascending update list of <= 3 modes x data exact / -1 / -R / 1, region writes on shapes order<=2,size<=3 "
+             "mode +1 / ->1, rank +-1, order +-1, reversed; hosvd / tucker_als option lattice: every per-mode rank "
+             "vector over {1, size, size+1} x every dimorder permutation (x sequential on/off for hosvd); import_data "
+             "files for shapes cells<=8; in-place: every non-decreasing update list of <= 3 entries over {-1..N-1} "
+             "(entries may repeat) x data exact / -1 / -R / minus one whole block of each listed entry / 1, region "
+             "writes on shapes order<=2,size<=3 "
              "x every region [0,hi) hi<=size+2 x every right-hand-side shape",
     "thorough": "adds every 4-way shape with size<=3,cells<=16 to all shape/mode groups (N=4: 6^4 permute sequences, "
                 "(rdims, cdims) pairs of total length <= N+1 for every N), ttensor operands with an all-ones core, "
